@@ -86,9 +86,48 @@ struct FwdMonitor : Observer {
       stop = true;
     }
   }
+  bool array_focus = false; // C14: check every array statement where it happens
+  long array_stmt_checks = 0, loads_checked = 0;
+  void check_array_statements(int b) {
+    const Func &fn = p.funcs[0];
+    bool any = false;
+    for (auto &st : fn.blocks[b].stmts)
+      if (st.kind == S_ARR_INIT || st.kind == S_ARR_STORE || st.kind == S_ARR_LOAD || st.kind == S_ARR_ASSIGN || st.kind == S_ARR_STORE_RANGE) any = true;
+    if (!any || !ex) return;
+    if (visits_arr[b]++ > 8) return;
+    const std::vector<z_abs_t> &ss = states_of(b);
+    for (size_t j = 0; j < fn.blocks[b].stmts.size() && j < ss.size() && j < ex->block_trace.size(); ++j) {
+      const Stmt &st = fn.blocks[b].stmts[j];
+      if (out_of_range(ex->block_trace[j])) return;
+      bool arr = st.kind == S_ARR_INIT || st.kind == S_ARR_STORE || st.kind == S_ARR_LOAD || st.kind == S_ARR_ASSIGN || st.kind == S_ARR_STORE_RANGE;
+      if (!arr) continue;
+      array_stmt_checks++;
+      std::string why;
+      GItem g = G_OK;
+      if (ss[j].is_bottom()) {
+        g = G_BOTTOM;
+        why = "the abstract state is bottom although an execution reaches this point";
+      } else if (st.kind == S_ARR_LOAD) {
+        loads_checked++;
+        std::vector<int> one{st.lhs};
+        g = G.member(ss[j], ex->block_trace[j], one, 2, why);
+        if (g == G_OK) g = G.member(ss[j], ex->block_trace[j], vars, 1, why);
+      }
+      if (g != G_OK) {
+        ctx.violation("C14", std::string(dom.name) + "|" + stmt_tag(st) + "|" + GITEM_NAMES[g], kase,
+                      "inside block " + fn.blocks[b].name + ": after " + str(p, st) + " the state is " + state_str(p, ex->block_trace[j], vars) + " but the abstract state is " + crab_str(ss[j]) + " : " + why +
+                          "\nblock entered as " + state_str(p, entered, vars) + " with pre-invariant " + crab_str(inv(pre, b, true)) + "\nconfig: " + config + "\n" + str(p));
+        stop = true;
+        return;
+      }
+    }
+  }
+  std::map<int, int> visits_arr;
   void leave_block(int f, int b, const CState &s) override {
     if (stop) return;
     if (out_of_range(s)) return; // the next admit() ends this execution
+    if (array_focus) check_array_statements(b);
+    if (stop) return;
     prev_block = b;
     std::string why;
     GItem g = G.member(inv(post, b, false), s, vars, level_for(visits_post, b), why);
@@ -147,6 +186,7 @@ struct FwdMonitor : Observer {
     if (ex)
       for (int j = 0; j < i && (size_t)j < ex->block_trace.size(); ++j)
         if (out_of_range(ex->block_trace[j])) return;
+    if (visits_assert[b * 1000 + i]++ > 3) return; // a few arrivals per assertion are compared statement by statement
     // the state reaching an assertion must be inside the abstract state the checker sees there
     const Func &fn = p.funcs[0];
     const std::vector<z_abs_t> &ss = states_of(b);
@@ -166,6 +206,7 @@ struct FwdMonitor : Observer {
     }
   }
   bool call_depth_guard = false;
+  std::map<int, int> visits_assert;
 };
 
 } // namespace
@@ -177,6 +218,8 @@ void run_fwd_case(Ctx &ctx, int64_t kase, Rng &r, const DomInfo &d) {
   caps.calls = r.chance(1, 4);
   caps.max_blocks = 4 + r.below(10);
   if (r.chance(1, 5)) caps.bools = false;
+  bool array_focus = ctx.param("focus") == "arrays" && d.arrays;
+  if (array_focus) caps.array_heavy = true;
   Prog p;
   GenCtx g(p, r, caps);
   GenOpts o;
@@ -185,6 +228,33 @@ void run_fwd_case(Ctx &ctx, int64_t kase, Rng &r, const DomInfo &d) {
   p.funcs.push_back(Func());
   p.funcs[0].name = "main";
   gen_func_body(g, p.funcs[0], o);
+  if (array_focus) {
+    // most loads should hit defined cells: the entry block first initialises every array (the
+    // element values are constants or current variable values); later statements overwrite parts
+    std::vector<Stmt> pro;
+    for (int a : g.arrs) {
+      Stmt s;
+      if (g.single_cell.count(a)) {
+        s.kind = S_ARR_STORE;
+        s.lhs = a;
+        s.k = g.arr_esz[a];
+        s.e1 = LinExp(0);
+        s.e3 = r.coin() ? LinExp(r.range(-5, 9)) : LinExp::var(g.ints[r.below(g.ints.size())]);
+        s.flag = r.coin();
+      } else {
+        if (r.chance(1, 6)) continue; // sometimes left uninitialised (reads of undefined cells are out of model)
+        s.kind = S_ARR_INIT;
+        s.lhs = a;
+        s.k = g.arr_esz[a];
+        s.e1 = LinExp(0);
+        s.e2 = LinExp(g.arr_esz[a] * r.range(6, 12));
+        s.e3 = r.coin() ? LinExp(r.range(-5, 9)) : LinExp::var(g.ints[r.below(g.ints.size())]);
+      }
+      pro.push_back(s);
+    }
+    auto &eb = p.funcs[0].blocks[p.funcs[0].entry].stmts;
+    eb.insert(eb.begin(), pro.begin(), pro.end());
+  }
   fix_widths(p);
   std::vector<int> ints = g.ints, bools = g.bools;
   std::vector<int> allvars;
@@ -219,6 +289,7 @@ void run_fwd_case(Ctx &ctx, int64_t kase, Rng &r, const DomInfo &d) {
   std::string config = std::string("dom=") + d.name + " " + dparams + "widening_delay=" + std::to_string(fp.get_widening_delay()) +
                        " descending=" + std::to_string(fp.get_descending_iterations()) + " thresholds=" + std::to_string(fp.get_max_thresholds()) +
                        " liveness=" + std::to_string(use_live) + " init=" + I.desc;
+  if (getenv("VERIF_PRINT_CASE")) fprintf(stderr, "case %lld config: %s\n%s\n", (long long)kase, config.c_str(), str(p).c_str());
   Func &fn = p.funcs[0];
   z_cfg_ref_t cfg(B->cfg(0));
   bool has_loop = false;
@@ -271,6 +342,7 @@ void run_fwd_case(Ctx &ctx, int64_t kase, Rng &r, const DomInfo &d) {
     FwdMonitor mon(ctx, p, *B, d, an, G, kase);
     mon.config = config;
     mon.vars = allvars;
+    mon.array_focus = array_focus;
     mon.assumptions = assum_spec.empty() ? nullptr : &assum_spec;
     // loop heads from the WTO
     {
@@ -313,6 +385,10 @@ void run_fwd_case(Ctx &ctx, int64_t kase, Rng &r, const DomInfo &d) {
     }
     mon.ex = nullptr;
     violated = mon.stop;
+    if (array_focus) {
+      ctx.count("array_statement_checks", mon.array_stmt_checks);
+      ctx.count("array_loads_checked", mon.loads_checked);
+    }
     nontop = G.nontop_checks;
     blocks_visited = mon.blocks_visited;
     reached_true = mon.reached_true;
